@@ -38,9 +38,9 @@ def obligations(tier, seed):
     tsplit_t = [dict(TS=1, SHAPE=s, CUT=c) for s in (0, 1, 2, 3, 4) for c in
                 (1, 3, 4, 5, 9, 10, 11, 50, 51, 100, 187, 188, 189, 191, 192, 196, 197, 198, 199, 200, 238, 239, 300, 375)]
     tsplit_t += [dict(TS=1, SHAPE=0, CUT=c, CUT2=d) for (c, d) in ((4, 188), (100, 197), (188, 192), (197, 198), (10, 370))]
-    garb_q = [dict(TS=0, LEN1=40, LEN2=0), dict(TS=0, LEN1=64, LEN2=0), dict(TS=0, LEN1=30, LEN2=40), dict(TS=1, LEN1=100, LEN2=97)]
-    garb_t = garb_q + [dict(TS=0, LEN1=1, LEN2=60), dict(TS=0, LEN1=47, LEN2=49), dict(TS=0, LEN1=48, LEN2=48), dict(TS=0, LEN1=100, LEN2=0),
-                       dict(TS=0, LEN1=60, LEN2=60), dict(TS=1, LEN1=197, LEN2=0), dict(TS=1, LEN1=200, LEN2=10), dict(TS=1, LEN1=9, LEN2=188)]
+    garb_q = [dict(TS=0, LEN1=40, LEN2=0), dict(TS=0, LEN1=64, LEN2=0), dict(TS=0, LEN1=30, LEN2=40)]
+    garb_t = garb_q + [dict(TS=0, LEN1=1, LEN2=60), dict(TS=0, LEN1=47, LEN2=17), dict(TS=0, LEN1=48, LEN2=16), dict(TS=0, LEN1=60, LEN2=4)]
+    garb_big = [dict(TS=0, LEN1=100, LEN2=0), dict(TS=0, LEN1=60, LEN2=60), dict(TS=1, LEN1=100, LEN2=97), dict(TS=1, LEN1=197, LEN2=0), dict(TS=1, LEN1=9, LEN2=188)]
     du_q = [dict(DUL=46, RAW=0), dict(DUL=7, RAW=0)]
     du_t = du_q + [dict(DUL=d, RAW=0) for d in (3, 4, 5, 6, 8, 16, 17, 18, 47, 48, 138, 257, 259)]
     return [
@@ -100,15 +100,24 @@ def obligations(tier, seed):
            desc="368 single-byte feeds equal one whole feed (same checks as split_equiv_pes)", encodes=["vbi_dvb_demux_feed", "demux_pes_packet", "wrap_around"],
            assumes=seq_assumes, bounds="2 packets, shapes 0 and 1", grid=[dict(TS=0, SHAPE=0), dict(TS=0, SHAPE=1)], reach=["end"],
            timeout=900, mem_gb=6, vin_size=400, **common),
-        Ob("garbage_feed", defines={"G_SEQ": None}, func="h_garbage", unwind=70, unwindset={"memcpy.0": 202, "memmove.0": 202, "memmove.1": 202, "memset.0": 300}, flags=fs, patch=RF_PATCH, solver="cadical",
+        Ob("garbage_feed", defines={"G_SEQ": None}, func="h_garbage", unwind=45, unwindset={"memcpy.0": 72, "memmove.0": 72, "memmove.1": 72, "memset.0": 300, "demux_pes_packet.3": 8, "demux_pes_packet.1": 26}, flags=fs, patch=RF_PATCH, solver="cadical",
            desc="LEN1 (+LEN2) fully symbolic bytes fed from reset to the PES resp. TS demultiplexer, callback result symbolic: all safety properties of dvb_demux.c "
                 "(exact-size source buffers, pes_buffer/ts_buffer, pointer arithmetic, overflow, shift), termination inside the unwind bounds, representation invariant "
                 "after each call, feed returns TRUE unless the callback refused",
            encodes=["vbi_dvb_demux_feed", "demux_pes_packet", "demux_ts_packet", "wrap_around", "valid_vbi_pes_packet_header", "decode_timestamp"],
            assumes=seq_assumes[:3] + ["PES runs: pes_wrap.buffer re-pointed to 192 bytes >= total number of bytes fed (the buffer never holds more than was fed, whatever "
                                       "packet length the garbage announces); TS runs use the real 65552 byte pes_buffer"],
-           bounds="buffer lengths on the grid (<= 100+97 bytes): no complete 184 byte packet fits, so data-unit extraction is covered by data_units_garbage instead",
+           bounds="PES demultiplexer; buffer lengths on the grid (total <= 70 bytes): no complete 184 byte packet fits, so data-unit extraction is covered by data_units_garbage instead",
            grid=garb_t, quick_grid=garb_q, reach=["end"], timeout=900, mem_gb=6, vin_size=400, **common),
+        Ob("garbage_feed_big", defines={"G_SEQ": None}, func="h_garbage", unwind=45, tier="thorough", unwindset={"memcpy.0": 202, "memmove.0": 202, "memmove.1": 202, "memset.0": 300, "demux_pes_packet.3": 14, "demux_pes_packet.1": 80, "demux_ts_packet.0": 190, "demux_ts_packet.9": 6}, flags=fs, patch=RF_PATCH, solver="cadical",
+           desc="LEN1 (+LEN2) fully symbolic bytes fed from reset to the PES resp. TS demultiplexer, callback result symbolic: all safety properties of dvb_demux.c "
+                "(exact-size source buffers, pes_buffer/ts_buffer, pointer arithmetic, overflow, shift), termination inside the unwind bounds, representation invariant "
+                "after each call, feed returns TRUE unless the callback refused",
+           encodes=["vbi_dvb_demux_feed", "demux_pes_packet", "demux_ts_packet", "wrap_around", "valid_vbi_pes_packet_header", "decode_timestamp"],
+           assumes=seq_assumes[:3] + ["PES runs: pes_wrap.buffer re-pointed to 192 bytes >= total number of bytes fed (the buffer never holds more than was fed, whatever "
+                                      "packet length the garbage announces); TS runs use the real 65552 byte pes_buffer"],
+           bounds="PES demultiplexer; buffer lengths on the grid (PES up to 120 bytes, TS up to 197 bytes (first sync search)): no complete 184 byte packet fits, so data-unit extraction is covered by data_units_garbage instead",
+           grid=garb_big, reach=["end"], timeout=1800, mem_gb=10, vin_size=400, **common),
         Ob("data_units_garbage", defines={"G_DU": None}, func="h_data_units", unwind=43, unwindset={"memcpy.0": 300, "extract_data_units.8": 2}, solver="cadical",
            desc="INV-STEP over the data-unit loop of extract_data_units: one fully symbolic data unit (payload of DUL bytes, exact-size object, first unit reaching to "
                 "within 2 bytes of the end) from ANY frame state (sp anywhere in [begin,end], any last line/field/unit id/extracted count), frame.raw == NULL as in every "
